@@ -34,4 +34,79 @@ theorem lineShortEnough_eq (n : Nat) (h : n < 2 ^ 62) :
   congr 1
   apply propext; omega
 
+/-! ## The index arithmetic of `truncateAround`
+
+Each right-hand side of `truncateAround` (`maxContextSize`, `pivotIdx`, the two `start`s, `end`, the returned column) is
+regenerated as Go `int` (`Int64`) arithmetic and shown to be the integer expression the model's `truncateAround`
+computes at that place (`let maxContextSize := 80 - 2*3`, `min (pivot - 1) len`, `max 0 (pivotIdx - maxContextSize / 2)`,
+`min (start0 + maxContextSize) len`, `max 0 (end - maxContextSize)`, `pivotIdx - start + left + 1`) whenever the operands
+fit 40 bits — no intermediate wraps. `pretty_truncate_in_range` is proved over these integer expressions. -/
+
+/-- values that fit 40 bits: every line length, column and pivot the printer can meet (a window is 512 bytes) -/
+def Small (x : Int64) : Prop := -(2 ^ 40 : Int) < x.toInt ∧ x.toInt < 2 ^ 40
+
+private theorem toInt_max (a b : Int64) : (max a b).toInt = max a.toInt b.toInt := by
+  have e : max a b = if a ≤ b then b else a := rfl
+  rw [e]
+  by_cases h : a ≤ b
+  · rw [if_pos h]; rw [Int64.le_iff_toInt_le] at h; omega
+  · rw [if_neg h]; rw [Int64.le_iff_toInt_le] at h; omega
+
+private theorem toInt_min (a b : Int64) : (min a b).toInt = min a.toInt b.toInt := by
+  have e : min a b = if a ≤ b then a else b := rfl
+  rw [e]
+  by_cases h : a ≤ b
+  · rw [if_pos h]; rw [Int64.le_iff_toInt_le] at h; omega
+  · rw [if_neg h]; rw [Int64.le_iff_toInt_le] at h; omega
+
+private theorem toInt_sub_small (a b : Int64) (ha : -(2 ^ 42 : Int) < a.toInt ∧ a.toInt < 2 ^ 42)
+    (hb : -(2 ^ 42 : Int) < b.toInt ∧ b.toInt < 2 ^ 42) : (a - b).toInt = a.toInt - b.toInt := by
+  rw [Int64.toInt_sub]; apply Int.bmod_eq_of_le <;> omega
+
+private theorem toInt_add_small (a b : Int64) (ha : -(2 ^ 42 : Int) < a.toInt ∧ a.toInt < 2 ^ 42)
+    (hb : -(2 ^ 42 : Int) < b.toInt ∧ b.toInt < 2 ^ 42) : (a + b).toInt = a.toInt + b.toInt := by
+  rw [Int64.toInt_add]; apply Int.bmod_eq_of_le <;> omega
+
+theorem truncContext_eq : (jsonrpcTruncContext jsonrpcMaxLineWidth 3).toInt = 74 := by decide
+
+theorem truncPivotIdx_eq (pivot len : Int64) (hp : Small pivot) (_hl : Small len) :
+    (jsonrpcTruncPivotIdx pivot len).toInt = min (pivot.toInt - 1) len.toInt := by
+  unfold Small at *
+  have e1 : (1 : Int64).toInt = 1 := by decide
+  simp only [jsonrpcTruncPivotIdx]
+  rw [toInt_min, toInt_sub_small _ _ (by omega) (by rw [e1]; omega), e1]
+
+theorem truncStart0_eq (pivotIdx : Int64) (hp : Small pivotIdx) :
+    (jsonrpcTruncStart0 pivotIdx 74).toInt = max 0 (pivotIdx.toInt - 74 / 2) := by
+  unfold Small at *
+  have e : ((74 : Int64) / 2).toInt = 37 := by decide
+  have e0 : (0 : Int64).toInt = 0 := by decide
+  simp only [jsonrpcTruncStart0]
+  rw [toInt_max, toInt_sub_small _ _ (by omega) (by rw [e]; omega), e, e0]
+  rfl
+
+theorem truncEnd_eq (start len : Int64) (hs : Small start) (_hl : Small len) :
+    (jsonrpcTruncEnd start 74 len).toInt = min (start.toInt + 74) len.toInt := by
+  unfold Small at *
+  have e : (74 : Int64).toInt = 74 := by decide
+  simp only [jsonrpcTruncEnd]
+  rw [toInt_min, toInt_add_small _ _ (by omega) (by rw [e]; omega), e]
+
+theorem truncStart_eq (end_ : Int64) (he : Small end_) :
+    (jsonrpcTruncStart end_ 74).toInt = max 0 (end_.toInt - 74) := by
+  unfold Small at *
+  have e : (74 : Int64).toInt = 74 := by decide
+  have e0 : (0 : Int64).toInt = 0 := by decide
+  simp only [jsonrpcTruncStart]
+  rw [toInt_max, toInt_sub_small _ _ (by omega) (by rw [e]; omega), e, e0]
+
+theorem truncColumn_eq (pivotIdx start left : Int64) (hp : Small pivotIdx) (hs : Small start) (hl : Small left) :
+    (jsonrpcTruncColumn pivotIdx start left).toInt = pivotIdx.toInt - start.toInt + left.toInt + 1 := by
+  unfold Small at *
+  have e1 : (1 : Int64).toInt = 1 := by decide
+  simp only [jsonrpcTruncColumn]
+  have h1 := toInt_sub_small pivotIdx start (by omega) (by omega)
+  have h2 := toInt_add_small (pivotIdx - start) left (by rw [h1]; omega) (by omega)
+  rw [toInt_add_small _ _ (by rw [h2, h1]; omega) (by rw [e1]; omega), h2, h1, e1]
+
 end Juno.Tie.C11
